@@ -135,3 +135,36 @@ class BatchVerifyBounded:
 
     def post_all_members(msgs, Qs, sigs, _rs, result):
         return result is all(ref.verify_ints(m, q, r, s) for m, q, (r, s) in zip(msgs, Qs, _rs))
+
+
+# ---------------------------------------------------------------- assert_as_valid_: the refusal's class on both arms
+def _gen_assert(rng):
+    d = _key(rng)
+    msg = bytes(rng.getrandbits(8) for _ in range(32))
+    P = C.mul(d, C.G)
+    px = P[0]
+    dd = d if P[1] % 2 == 0 else C.n - d
+    sig = ref.sign(msg, d, bytes(32))
+    r, s = int.from_bytes(sig[:32], "big"), int.from_bytes(sig[32:], "big")
+    c = rng.random()
+    if c < 0.3:
+        # K = s*G - e*P at infinity: any liftable r, s = e*d
+        r = C.mul(rng.randrange(1, C.n), C.G)[0]
+        e = int.from_bytes(ref.tagged_hash("BIP0340/challenge", ref.b32(r) + ref.b32(px) + msg), "big") % C.n
+        s = e * dd % C.n
+    elif c < 0.45:
+        # the odd-y twin of the right K: s' = n - k + e*d
+        s = (2 * (int.from_bytes(ref.tagged_hash("BIP0340/challenge", ref.b32(r) + ref.b32(px) + msg), "big") % C.n) * dd - s) % C.n
+    elif c < 0.6:
+        s = (s + 1) % C.n
+    return dict(msg=msg, Q=px, sig=ssa.Sig(r, s, check_validity=False), _rs=(r, s))
+
+
+@contract("btclib.ecc.ssa.assert_as_valid_", gen=_gen_assert, props="C03 C04", both_arms=True, n_quick=300, n_thorough=6000,
+          rule="valid signatures; 30% with s = e*d so that the recomputed nonce point is the point at infinity; the odd-y twin of the right nonce point; s + 1")
+class AssertAsValidBounded:
+    """returns for a signature the BIP340 equation holds for, and refuses every other -- the
+    nonce point at infinity included -- with BTClibRuntimeError, on both arms"""
+
+    def raises_BTClibRuntimeError(msg, Q, sig, _rs):
+        return not ref.verify_ints(msg, Q, _rs[0], _rs[1])
